@@ -649,6 +649,18 @@ CLI_ATTRS = {
 }
 
 
+# legal boundary values: zero is a value, not "option absent"
+CLI_ZERO = {
+    "assemble": [(["--mcmc-burn", "0"], "mcmc_burn", 0), (["--haplotype-posterior-threshold", "0"], "haplotype_posterior_threshold", 0.0),
+                 (["--mcmc-llk-cache-threshold", "0"], "mcmc_llk_cache_threshold", 0), (["--mcmc-recombination-step-probability", "0"], "mcmc_recombination_step_probability", 0.0),
+                 (["--mcmc-partial-dosage-step-probability", "0"], "mcmc_partial_dosage_step_probability", 0.0), (["--mcmc-dosage-step-probability", "0"], "mcmc_dosage_step_probability", 0.0),
+                 (["--mcmc-fix-homozygous", "0"], "mcmc_fix_homozygous", 0.0), (["--inbreeding", "0"], "sample_inbreeding", "each:0.0")],
+    "call": [(["--mcmc-burn", "0"], "mcmc_burn", 0), (["--inbreeding", "0"], "sample_inbreeding", "each:0.0"), (["--mcmc-chain-incongruence-threshold", "0"], "mcmc_incongruence_threshold", 0.0)],
+    "call-exact": [(["--inbreeding", "0"], "sample_inbreeding", "each:0.0")],
+    "call-pedigree": [(["--mcmc-burn", "0"], "mcmc_burn", 0), (["--gamete-error", "0"], "gamete_error", "each:(0.0, 0.0)"), (["--gamete-ibd", "0"], "gamete_ibd", "each:(0.0, 0.0)")],
+}
+
+
 def cli_attrs_drive(load, progname, choice):
     """program.cli(<argv>) on the repository's test files with every numeric / string option given a distinctive value (or all
     left out: the parser's defaults are not compared with anything -- no property fixes them); returns (problems, command).  The seed is drawn from {0, 29}: 0 is a legal seed."""
@@ -658,7 +670,8 @@ def cli_attrs_drive(load, progname, choice):
 
     data = os.path.join(E.repo_root(), "mchap", "tests", "test_io", "data")
     mod = load(CLI_PROGS[progname])
-    given = int(choice("given", 0, 1))
+    given = int(choice("given", 0, 2))  # 0: options left out, 1: distinctive values, 2: zeros (legal boundary values)
+    table = {0: [], 1: CLI_ATTRS[progname], 2: CLI_ZERO[progname]}[given]
     seed = [None, 0, 29][int(choice("seed", 0, 2))] if progname != "call-exact" else None
     ploidy = [2, 4][int(choice("ploidy", 0, 1))]
     cmd = ["mchap", progname, "--bam"] + [os.path.join(data, "simple.sample%d.bam" % i) for i in (1, 2, 3)] + ["--ploidy", str(ploidy)]
@@ -670,20 +683,19 @@ def cli_attrs_drive(load, progname, choice):
         cmd += ["--sample-parents", os.path.join(data, "simple.pedigree.132.txt")]
     if seed is not None:
         cmd += ["--mcmc-seed", str(seed)]
-    if given:
-        for vals, _, _ in CLI_ATTRS[progname]:
-            cmd += vals
+    for vals, _, _ in table:
+        cmd += vals
     with contextlib.redirect_stdout(io.StringIO()):
         prog = mod.program.cli(cmd)
     bad = []
-    for vals, attr, want in (CLI_ATTRS[progname] if given else []):
+    for vals, attr, want in table:
         got = getattr(prog, attr)
         if isinstance(want, str) and want.startswith("each:"):
             w = want[5:]
             vs = list(got.values()) if isinstance(got, dict) else list(got)
             if not vs or any(repr(_plainv(x)) != w for x in vs):
                 bad.append("%s gives %s=%s (every sample should have %s)" % (" ".join(vals), attr, str(got)[:80], w))
-        elif _plainv(got) != want or type(_plainv(got)) is not type(want):
+        elif _plainv(got) != want or isinstance(_plainv(got), bool) or (type(_plainv(got)) is not type(want) and not (isinstance(want, float) and isinstance(_plainv(got), (int, float)))):
             bad.append("%s gives %s=%r" % (" ".join(vals), attr, got))
     if seed is not None and (prog.random_seed != seed or isinstance(prog.random_seed, bool)):
         bad.append("--mcmc-seed %d gives random_seed=%r" % (seed, prog.random_seed))
